@@ -53,19 +53,37 @@ def check(F, segments, tag="prelude"):
     h = hashlib.sha256(src.encode()).hexdigest()[:16]
     work = os.path.join(factsmod.CACHE, "witness-work", f"{tag}-{h}")
     cache = os.path.join(work, "result.json")
-    if os.path.exists(cache):
-        return tuple(json.load(open(cache)))
-    shutil.rmtree(work, ignore_errors=True)
-    os.makedirs(work, exist_ok=True)
-    lib = os.path.join(work, "lib_src.rs")
-    with open(lib, "w") as f:
-        f.write(src)
+
+    def cached():
+        try:
+            with open(cache) as f:
+                return tuple(json.load(f))
+        except (OSError, ValueError):
+            return None
+
+    r0 = cached()
+    if r0 is not None:
+        return r0
     env = dict(os.environ, VERIF_REPO=F.root)
+    # one witness build at a time, and nothing touches a work directory outside the lock: a second process with the same
+    # source waits here and then finds the result of the first
     lock = factsmod._lock("witness")
     try:
+        r0 = cached()
+        if r0 is not None:
+            return r0
+        shutil.rmtree(work, ignore_errors=True)
+        os.makedirs(work, exist_ok=True)
+        lib = os.path.join(work, "lib_src.rs")
+        with open(lib, "w") as f:
+            f.write(src)
         r = subprocess.run([BUILD, "check", work, lib], env=env, stdout=subprocess.PIPE, stderr=subprocess.STDOUT, text=True)
+        return _collect(F, segments, work, cache, r)
     finally:
         lock.close()
+
+
+def _collect(F, segments, work, cache, r):
     diags = []
     msgs = os.path.join(work, "messages.json")
     if os.path.exists(msgs):
@@ -90,14 +108,16 @@ def check(F, segments, tag="prelude"):
         err = open(os.path.join(work, "stderr.txt")).read()[-3000:] if os.path.exists(os.path.join(work, "stderr.txt")) else r.stdout[-2000:]
         if "error: no matching package" in err or "failed to select a version" in err or "could not find" in err and "registry" in err:
             raise factsmod.InfraError("witness crate: dependencies unavailable offline:\n" + err)
-        diags.append({"level": "error", "code": None, "message": "cargo check failed without a compiler message: " + err[-800:],
-                      "segment": "?", "line": 0, "text": ""})
-    with open(cache, "w") as f:
+        # not a statement about the generated code: the build itself failed
+        raise factsmod.InfraError("witness crate: cargo check failed without a compiler message:\n" + err[-1500:])
+    tmp = cache + ".tmp"
+    with open(tmp, "w") as f:
         json.dump([ok, diags], f)
-    # keep the work area small
+    os.replace(tmp, cache)
+    # keep the work area small (still under the lock: no other process is inside a work directory)
     base = os.path.join(factsmod.CACHE, "witness-work")
     ds = sorted((os.path.getmtime(os.path.join(base, d)), d) for d in os.listdir(base) if "-" in d)
-    for _, d in ds[:-12]:
+    for _, d in ds[:-40]:
         shutil.rmtree(os.path.join(base, d), ignore_errors=True)
     return ok, diags
 
